@@ -218,11 +218,24 @@ func (fr *frame) block(b *ssa.BasicBlock, st *state) {
 				fr.doCall(b, st, d, d.Common(), nil)
 			}
 		case *ssa.Send:
-			c.note("channel send abstracted (no blocking/interleaving semantics)")
+			c.note("channel send abstracted (no blocking/interleaving semantics); the ghost counter sent[ch] counts the sends")
 			vc.nSends++
+			if _, ok := vc.w.db.Ghosts["sent"]; ok && vc.ensureKey("G_sent") {
+				cur := c.heapGet(st, "G_sent")
+				ch := fr.val(x.Chan)
+				st.heap["G_sent"] = fmt.Sprintf("(store %s %s (+ (select %s %s) 1))", cur, ch, cur, ch)
+			}
 		case *ssa.Select:
 			c.note("select abstracted: nondeterministic choice, received values unconstrained")
 			fr.havocVal(x, st)
+			// the chosen case index lies in [0, n) for a blocking select and in [-1, n) otherwise
+			if comps, ok := fr.tuples[x]; ok && len(comps) > 0 {
+				lo := 0
+				if !x.Blocking {
+					lo = -1
+				}
+				vc.assumeG(fmt.Sprintf("(and (>= %s %s) (< %s %d))", comps[0], smtInt(int64(lo)), comps[0], len(x.States)))
+			}
 		case *ssa.If, *ssa.Jump:
 		case *ssa.Return:
 			var rs []string
